@@ -799,6 +799,13 @@ func (a *FractionDigitsArg) Parse() error {
 	var err error
 	var str = string(a.arg)
 	var ErrInval = errors.New("invalid argument: " + str)
+	for i, c := range str {
+		// fraction-digits-arg = ("1" ["0".."8"]) / "2".."9": no sign, no
+		// leading zero
+		if c < '0' || c > '9' || (i == 0 && c == '0') {
+			return ErrInval
+		}
+	}
 	switch len(str) {
 	case 1:
 		fallthrough
